@@ -64,6 +64,10 @@ XFilters(node, j) ==
            below == IF here # "" THEN here ELSE XFilters(c, 1)
        IN IF below # "" THEN below ELSE XFilters(node, j + 1)
 
+\* what a clause contributes to its line: its record's status, except for a negated call of a
+\* parameterised rule, whose record is the callee's rule record (the negation is applied above it)
+Eff(c, node) == IF c.c = "pcall" /\ c.neg THEN (IF node.st = "PASS" THEN "FAIL" ELSE "PASS") ELSE node.st
+
 \* consume the line nodes of `cnf` from nodes[k..]; result [why, st, k]
 XLines(F, rules, cnf, j, nodes, k, fails, passes) ==
   IF j > Len(cnf) THEN [why |-> "", st |-> Agg(fails, passes), k |-> k]
@@ -73,19 +77,20 @@ XLines(F, rules, cnf, j, nodes, k, fails, passes) ==
         node == nodes[k]
         w == IF Len(line) > 1 THEN XDisj(F, rules, line, node, 1) ELSE XClause(F, rules, line[1], node)
     IN IF w # "" THEN [why |-> w, st |-> "", k |-> k]
-       ELSE XLines(F, rules, cnf, j + 1, nodes, k + 1,
-                   fails + (IF node.st = "FAIL" THEN 1 ELSE 0),
-                   passes + (IF node.st = "PASS" THEN 1 ELSE 0))
+       ELSE LET st == IF Len(line) = 1 THEN Eff(line[1], node) ELSE node.st IN
+            XLines(F, rules, cnf, j + 1, nodes, k + 1,
+                   fails + (IF st = "FAIL" THEN 1 ELSE 0),
+                   passes + (IF st = "PASS" THEN 1 ELSE 0))
 
 XDisj(F, rules, alts, node, dummy) ==
   LET ch == Kids(node)
       n == Len(ch) IN
   IF node.k # "Disj" THEN "expected a Disjunction record, found " \o node.k
   ELSE IF n = 0 \/ n > Len(alts) THEN "disjunction with a wrong number of evaluated alternatives"
-  ELSE IF \E i \in 1 .. (n - 1) : ch[i].st = "PASS" THEN "alternatives evaluated after one passed"
-  ELSE IF n < Len(alts) /\ ch[n].st # "PASS" THEN "alternatives left unevaluated although none passed"
-  ELSE IF node.st # (IF ch[n].st = "PASS" THEN "PASS"
-                     ELSE IF \E i \in 1 .. n : ch[i].st = "FAIL" THEN "FAIL" ELSE "SKIP")
+  ELSE IF \E i \in 1 .. (n - 1) : Eff(alts[i], ch[i]) = "PASS" THEN "alternatives evaluated after one passed"
+  ELSE IF n < Len(alts) /\ Eff(alts[n], ch[n]) # "PASS" THEN "alternatives left unevaluated although none passed"
+  ELSE IF node.st # (IF Eff(alts[n], ch[n]) = "PASS" THEN "PASS"
+                     ELSE IF \E i \in 1 .. n : Eff(alts[i], ch[i]) = "FAIL" THEN "FAIL" ELSE "SKIP")
        THEN "disjunction status " \o node.st \o " does not follow from its alternatives"
   ELSE LET ws == {i \in 1 .. n : XClause(F, rules, alts[i], ch[i]) # ""} IN
        IF ws = {} THEN "" ELSE XClause(F, rules, alts[CHOOSE i \in ws : TRUE], ch[CHOOSE i \in ws : TRUE])
